@@ -1,4 +1,4 @@
-import N2k.Lemmas.GroupFunctionRun
+import N2k.Lemmas.GroupFunctionClaimRun
 /-!
 # C09 — Group-function (PGN 126208) requests and commands are answered and take effect
 
@@ -482,5 +482,73 @@ example : Inv demoSt := ⟨rfl, ⟨.base 0, by decide, rfl⟩, rfl⟩
 example : runLog demoSt demoHistory =
     [(1, .cmd60928 7 [1 + 1, 0x00, 0xee, 0x00, 0, 1, 0xf0] 5 0xff 0xff), (1, .serve60928), (0, .nothing), (1, .nothing)] := by decide
 example : (applyLog (cfgOf demoSt) (runLog demoSt demoHistory)).devs = [⟨0x2b, 5, 60000, 10000⟩, ⟨0x2d, 5, 60000, 10000⟩] := by decide
+
+/-- **C09_history_delayed_claim.** Device `i`'s delayed address claim was armed at clock `t` (by serving a 60928 request,
+`C09_delayed_claim_armed`, or by a 60928 command). Take ANY history `mid ++ poll :: post` such that
+* in `mid` the claim is not re-armed and no poll finds it due (`Calm`: these polls send nothing for it) - whatever other
+  requests, commands, answers, polls of other devices and clock advances `mid` contains,
+* the poll happens at clock `t+k` with `3 ≤ k < 2^31` (fairness: a poll at least 3 ms after the arming; both timer builds,
+  any clock origin, the 32-bit wrap and its sentinel included; `t+k < 2^64`),
+* `post` does not re-arm it and keeps the clock below 2^64.
+Then: at that poll the claim IS due and the device's pending step hands exactly the PGN 60928 message with the device's
+current NAME to `SendMsg`; before it (`mid`) and after it (`post`, until the next 60928 request/command) no poll finds it
+due, i.e. it is sent exactly once; at the end the timer is disabled. -/
+theorem C09_history_delayed_claim (g : GSt) (i : Nat) (a : Attr) (t k : Nat) (mid post : List Ev)
+    (hi : i < g.s.devs.length) (ha : g.attrs[i]? = some a) (harm : a.pendingClaim = Sched.fromNow g.s.flavor t 2)
+    (hmid : Calm i g mid) (hnow : (run g mid).s.now = t + k) (hk : 3 ≤ k) (hk2 : k < 2147483648) (h64 : t + k < M64)
+    (hpost : NoRearm i (stepEv (run g mid) .poll) post) (hclk : ClockOK (stepEv (run g mid) .poll) post) :
+    due (run g mid) i
+    ∧ (∃ gpre d a', (run g mid).attrs[i]? = some a' ∧ gpre.attrs[i]? = some a' ∧ gpre.s.devs[i]? = some d
+        ∧ (pendingStep gpre i).s = (sendMsg { gpre.s with devs := updDev gpre.s.devs i { d with name := a'.name } }
+            (claimMsg { d with name := a'.name }) (some i)).1)
+    ∧ Calm i (stepEv (run g mid) .poll) post
+    ∧ pc (run g (mid ++ .poll :: post)) i = some (Sched.disabled g.s.flavor) := by
+  have hi' : i < (run g mid).s.devs.length := by rw [run_devs_length]; exact hi
+  have hpc : pc (run g mid) i = some (Sched.fromNow g.s.flavor t 2) := by
+    rw [calm_pc i mid g hi hmid]; simp only [pc, ha, Option.map_some, harm]
+  have hdue : due (run g mid) i := by
+    simp only [pc] at hpc
+    cases hx : (run g mid).attrs[i]? with
+    | none => rw [hx] at hpc; cases hpc
+    | some a' =>
+      rw [hx] at hpc
+      have : a'.pendingClaim = Sched.fromNow g.s.flavor t 2 := Option.some.inj hpc
+      exact ⟨a', hx, by rw [this, run_flavor, hnow]; exact fromNow2_due _ t k hk hk2 h64⟩
+  obtain ⟨hp1, hp2⟩ := pollG_due (run g mid) i hi' hdue
+  have hi'' : i < (stepEv (run g mid) .poll).s.devs.length := by rw [stepEv_devs_length]; exact hi'
+  have hdis : pc (stepEv (run g mid) .poll) i = some (Sched.disabled (stepEv (run g mid) .poll).s.flavor) := by
+    rw [stepEv_flavor]; exact hp1
+  have hcalm := idle_calm i post _ hi'' hdis hpost hclk
+  refine ⟨hdue, hp2, hcalm, ?_⟩
+  rw [run_append]
+  show pc (run (stepEv (run g mid) .poll) post) i = _
+  rw [calm_pc i post _ hi'' hcalm]
+  show pc (pollG (run g mid)) i = _
+  rw [hp1, run_flavor]
+
+/-- non-vacuity: device 1 serves a 60928 request at clock 5000 (claim armed), a product-information request is answered in
+the same millisecond (inside the 2 ms window), the clock advances 3 ms, then the poll -/
+def demoArmed : GSt :=
+  run demoSt [.rx { prio := 3, pgn := 126208, src := 7, dst := 35, len := 11, data := reqHeader 60928 0xffffffff 0xffff 0 }]
+def demoProdReq : Msg := { prio := 3, pgn := 126208, src := 7, dst := 35, len := 11, data := reqHeader 126996 0xffffffff 0xffff 0 }
+def demoMid : List Ev := [.rx demoProdReq, .tick 3]
+
+set_option maxRecDepth 20000 in
+example : 1 < demoArmed.s.devs.length ∧ pc demoArmed 1 = some (Sched.fromNow demoArmed.s.flavor 5000 2)
+    ∧ (run demoArmed demoMid).s.now = 5000 + 3 ∧ NoRearm 1 (stepEv (run demoArmed demoMid) .poll) []
+    ∧ ClockOK (stepEv (run demoArmed demoMid) .poll) [] := by
+  refine ⟨by decide, by decide, by decide, trivial, ?_⟩
+  show (stepEv (run demoArmed demoMid) .poll).s.now < M64
+  decide
+
+set_option maxRecDepth 20000 in
+example : Calm 1 demoArmed demoMid := by
+  have hlog : evLog demoArmed (.rx demoProdReq) = [(1, .serveProduct 7 false)] := by decide
+  refine ⟨?_, trivial, ?_, trivial, trivial⟩
+  · intro p hp _
+    rw [hlog] at hp
+    simp at hp; subst hp
+    exact ⟨by simp, by simp⟩
+  · intro p hp; cases hp
 
 end N2k.C09
